@@ -17,7 +17,7 @@ MANIFEST = dict(
               'helper-property/loop-shape/rebuild-order/physics-header tables regenerated from bsp.py, binformat.py and vmf.py by fail-closed '
               'ast translators + vm_compute correspondence (struct, RLE, row size, find_or_insert/extend with and without key, texture table, '
               'entity lump, PHYSCOLLIDE, DeferredWrites; byte-exact) + field-by-field save/re-read oracle',
-    text='Theorems in Props/C11.v (50): for every struct format of the modelled language and every fitting record unpack(pack v) = v; '
+    text='Theorems in Props/C11.v (52): for every struct format of the modelled language and every fitting record unpack(pack v) = v; '
          'pack succeeds only if every integer is inside its field (out-of-range raises); Ns fields pad and silently truncate, '
          'so a guarded site never truncates; run-length decoding inverts encoding for every byte list, alone and at its offset '
          'inside the lump; an integer expression that passes the decision procedure rowsize_ok equals ceil(n/8) for EVERY cluster count and '
@@ -41,7 +41,7 @@ MANIFEST = dict(
          'index, solids as length + bytes, keyvalues text + NUL, sentinel header) is read back unchanged when both sides use one order of '
          'the four header values, one sentinel and one order of the sections (a swapped header is refuted); a file written with '
          'DeferredWrites (slots reserved, set later, filled in at the end) is the file of a two-pass writer in which every slot holds the '
-         'value set last for its key (a slot never set is an error). '
+         'value set last for its key (a slot never set is an error); the sprite dictionary entry of a sprite / shape detail prop is read back slot by slot when both sides name one attribute component per slot (sprite_dict_roundtrip). '
          'Generic over the tables generated from today\'s source: every reader/writer site '
          'pair of every lump uses one layout in each of the five layout tables; for 23 record variants (planes, vertexes, primitives, faces, '
          'brush sides, brushes, leaf water data, leafs, nodes, texdata, texinfo, brush models, cubemaps, overlay fades/system levels, the three '
@@ -50,7 +50,7 @@ MANIFEST = dict(
          'reader\'s size for every face count; each detail-prop class is written by its own branch; all 28 index tables of the writers have a '
          'key that determines the record; all 8 loops over local index tables reach every entry; the rebuild order is topological for the 28 '
          'append edges. The premises are kernel-checked for '
-         'today\'s source on every run (241 obligations). Models are compared byte-exactly with CPython struct, runlength_encode/decode, '
+         'today\'s source on every run (246 obligations). Models are compared byte-exactly with CPython struct, runlength_encode/decode, '
          'binformat.find_or_* (with key functions), binformat.DeferredWrites, _lmp_write/read_textures, write_ent_data/_lmp_read_ents, the '
          'PHYSCOLLIDE lump of _lmp_write/read_bmodels; generated lump contents (incl. '
          'near-duplicate objects, and objects reachable ONLY through references of other objects - grafted sub-trees of nodes, leafs, faces, '
@@ -58,7 +58,7 @@ MANIFEST = dict(
          'of a base BSP in 7 layouts x 13 static-prop versions, saved, re-read and compared field by field; in a fifth of the worlds the '
          're-read objects are then changed in place and the same BSP object is saved and re-read again; values that do not fit must raise; '
          'every call into the implementation runs under a time limit (a hang is reported as a failing input).',
-    note='Partial: the sprite dictionary record of detail props, instance-name prefixes of outputs and mapversion are searched, not modelled; the '
+    note='Partial: instance-name prefixes of outputs and mapversion are searched, not modelled; the '
          'keyvalues text inside a physics block is opaque (its syntax is C01\'s). The work-list theorem is about the loop shape read from the '
          'source (which list is iterated, live or snapshot, where the finder closure is used); that the body turns EVERY reference of the '
          'record into an index through the finder is covered by record_fields_agree:nodes. Field orders are generated by a name-based '
@@ -81,7 +81,7 @@ IMPORTS = ['Coq.Lists.List', 'Coq.Strings.String', 'Coq.NArith.NArith', 'Coq.ZAr
            'SV.Bin.LE', 'SV.Bin.Struct', 'SV.Bin.RLE', 'SV.Bin.FindInsert', 'SV.Fmt.BspFormatsSpec', 'SV.Fmt.BspDedup', 'SV.Gen.BspFormats_gen']
 IMPORTS_GLUE = ['Coq.Lists.List', 'Coq.Strings.String', 'Coq.NArith.NArith', 'Coq.ZArith.ZArith', 'Coq.Bool.Bool',
                 'SV.Bin.LE', 'SV.Bin.Struct', 'SV.Bin.RLE', 'SV.Fmt.BspFormatsSpec', 'SV.Fmt.BspVisRow', 'SV.Fmt.BspTexStrings',
-                'SV.Fmt.BspRecords', 'SV.Fmt.VmfText', 'SV.Fmt.BspEntLump', 'SV.Fmt.BspDedup', 'SV.Fmt.BspFlagSplit', 'SV.Fmt.BspOverlayRec', 'SV.Fmt.BspWorklist', 'SV.Fmt.BspPhys', 'SV.Bin.BspDeferred', 'SV.Gen.BspFormats_gen', 'SV.Gen.BspGlue_gen']
+                'SV.Fmt.BspRecords', 'SV.Fmt.VmfText', 'SV.Fmt.BspEntLump', 'SV.Fmt.BspDedup', 'SV.Fmt.BspFlagSplit', 'SV.Fmt.BspOverlayRec', 'SV.Fmt.BspWorklist', 'SV.Fmt.BspPhys', 'SV.Bin.BspDeferred', 'SV.Fmt.BspSpriteDict', 'SV.Gen.BspFormats_gen', 'SV.Gen.BspGlue_gen']
 PRE = '''Import ListNotations. Open Scope string_scope. Open Scope list_scope.
 Fixpoint nl_eqb (a b : list N) : bool := match a, b with [], [] => true | x :: a', y :: b' => N.eqb x y && nl_eqb a' b' | _, _ => false end.
 Fixpoint natl_eqb (a b : list nat) : bool := match a, b with [], [] => true | x :: a', y :: b' => Nat.eqb x y && natl_eqb a' b' | _, _ => false end.
@@ -1267,6 +1267,11 @@ def glue_obligations(glue: dict) -> dict[str, str]:
     # the offset table of the visibility lump: every slot is reserved where it is deferred (write=True), filled in (write()) before
     # the buffer is returned, and no slot is deferred twice (one key per cluster)
     obs['vis_offset_slots_reserved_and_filled'] = 'vis_deferred_usage_ok'
+    # the sprite dictionary of the detail props: every class that goes through it has the same attribute component in every slot on both sides
+    for c in glue.get('sprite_dict', {}):
+        obs[f'sprite_dictionary_fields_agree:{c}'] = ('forallb (fun e : sprite_entry => negb (String.eqb (fst (fst e)) "%s") || '
+                                                     'sprite_entry_ok (fst sprite_dict_fmts) (snd sprite_dict_fmts) e) sprite_dict' % c)
+    obs['sprite_dictionary_found'] = 'sprite_dict_ok sprite_dict_fmts sprite_dict'
     obs['index_table_loops_found'] = 'negb (Nat.eqb (List.length worklists) 0)'
     obs['rebuild_order_runs_appending_writers_first'] = 'order_ok rebuild_order append_edges'
     return obs
@@ -1431,6 +1436,8 @@ def run(ck: Ck) -> None:
         if nm.startswith('instance:brushside_bevel') and hit_views & {'brushes', '!any'}:
             ck.explain(nm)
         if nm.startswith('instance:helper_property_split_agrees:StaticPropFlags') and hit_views & {'props', 'no-reject', '!any'}:
+            ck.explain(nm)
+        if nm.startswith('instance:sprite_dictionary_') and hit_views & {'detail_props', '!any'}:
             ck.explain(nm)
         if nm.startswith('instance:bool_code_agrees:DetailProp') and hit_views & {'detail_props', '!any'}:
             ck.explain(nm)
